@@ -431,6 +431,18 @@ func CheckMain(id, tier string, seed int64, only string, shardsOverride int) int
 	for k, v := range merged.Extra {
 		cov[k] = v
 	}
+	if p := os.Getenv("VERIF_RACEPASS"); p != "" {
+		if b, err := os.ReadFile(p); err == nil {
+			var rp map[string]any
+			if json.Unmarshal(b, &rp) == nil {
+				rp["note"] = "separate free-running -race build of concurrent storage-backend use and concurrent renders; samples schedules, supporting evidence only"
+				cov["race_pass"] = rp
+				if n, _ := rp["race_reports"].(float64); n > 0 {
+					fmt.Printf("RACE-PASS: the race detector reported %d data race(s); see bin/racepass.out (supporting evidence, not part of the exhaustive verdict)\n", int(n))
+				}
+			}
+		}
+	}
 	if len(merged.Samples) == 0 {
 		cov["samples"] = []any{"(no sample recorded)"}
 	}
